@@ -10,7 +10,7 @@ use std::{
     },
 };
 
-use shred::{Fetch, FetchMut, ResourceId, World};
+use shred::{Fetch, FetchMut, Read, ResourceId, World, Write};
 
 use crate::model::Rng;
 
@@ -46,6 +46,8 @@ pub enum BOp {
     Drop(usize),
     Clone(usize),
     Write(usize, u64), // through an exclusive guard
+    SysDataOptRead(u8),  // world.system_data::<Option<Read<T>>>() while the guards are alive
+    SysDataOptWrite(u8), // world.system_data::<Option<Write<T>>>()
 }
 
 #[derive(Clone, Debug, PartialEq)]
@@ -88,6 +90,8 @@ impl WCase {
                             BOp::Drop(k) => s += &format!("  drop k={}\n", k),
                             BOp::Clone(k) => s += &format!("  clone k={}\n", k),
                             BOp::Write(k, v) => s += &format!("  write k={} v={}\n", k, v),
+                            BOp::SysDataOptRead(t) => s += &format!("  sysdata_opt_read t={}\n", t),
+                            BOp::SysDataOptWrite(t) => s += &format!("  sysdata_opt_write t={}\n", t),
                         }
                     }
                     s += "}\n";
@@ -120,6 +124,8 @@ impl WCase {
                     "drop" => b.push(BOp::Drop(f(&toks, "k")? as usize)),
                     "clone" => b.push(BOp::Clone(f(&toks, "k")? as usize)),
                     "write" => b.push(BOp::Write(f(&toks, "k")? as usize, f(&toks, "v")?)),
+                    "sysdata_opt_read" => b.push(BOp::SysDataOptRead(f(&toks, "t")? as u8)),
+                    "sysdata_opt_write" => b.push(BOp::SysDataOptWrite(f(&toks, "t")? as u8)),
                     o => return Err(format!("unknown borrow op {}", o)),
                 }
                 continue;
@@ -167,7 +173,9 @@ pub fn generate(rng: &mut Rng) -> WCase {
                     let d = [0u64, 0, 1, 7][rng.below(4)];
                     let t2 = (t + 1) % 3;
                     val += 1;
-                    b.push(match rng.below(10) {
+                    b.push(match rng.below(12) {
+                        10 => BOp::SysDataOptRead(t),
+                        11 => BOp::SysDataOptWrite(t),
                         0 | 1 | 2 => BOp::Fetch(t, d),
                         3 | 4 => BOp::FetchMut(t, d),
                         5 => if rng.chance(50) { BOp::FetchWrongType(t, t2, d) } else { BOp::FetchMutWrongType(t, t2, d) },
@@ -319,7 +327,11 @@ pub fn run(case: &WCase) -> Option<(&'static str, String)> {
                 let r = by_type!(*t, T => quiet(|| if *d == 0 {
                     world.get_mut::<T>().map(|x| { x.v = *v; })
                 } else {
-                    world.get_mut_raw(rid(*t, *d)).map(|_| ())
+                    world.get_mut_raw(rid(*t, *d)).map(|r| {
+                        if std::any::Any::type_id(&*r) != std::any::TypeId::of::<T>() {
+                            panic!("get_mut_raw returned an object that is not the stored value (its type id is not the id's type)");
+                        }
+                    })
                 }));
                 let present = model.contains_key(&(*t, *d));
                 match r {
@@ -417,6 +429,32 @@ pub fn run(case: &WCase) -> Option<(&'static str, String)> {
                             let ok = by_type!(*t, T => quiet(|| w.try_fetch_mut_by_id::<T>(rid(*t2, *d)).is_some())).is_ok();
                             if ok {
                                 return Some(("C09", format!("{}: try_fetch_mut_by_id with a type argument that disagrees with the id returned instead of panicking", bwhat)));
+                            }
+                        }
+                        BOp::SysDataOptRead(t) | BOp::SysDataOptWrite(t) => {
+                            // the Option forms of system data: None only when the resource is absent; a conflicting borrow panics
+                            let is_write = matches!(b, BOp::SysDataOptWrite(_));
+                            let present = model.contains_key(&(*t, 0));
+                            let must_panic = present && (excl(&guards, *t, 0) || (is_write && shared(&guards, *t, 0) > 0));
+                            let r: Result<bool, String> = by_type!(*t, T => if is_write {
+                                quiet(|| w.system_data::<Option<Write<T, shred::PanicHandler>>>().is_some())
+                            } else {
+                                quiet(|| w.system_data::<Option<Read<T, shred::PanicHandler>>>().is_some())
+                            });
+                            match r {
+                                Err(m) => {
+                                    if !must_panic {
+                                        return Some(("C08", format!("{} panicked although the resource is {}: {}", bwhat, if present { "not borrowed in a conflicting way" } else { "absent" }, m)));
+                                    }
+                                }
+                                Ok(some) => {
+                                    if must_panic {
+                                        return Some(("C08", format!("{} returned {} while a conflicting guard of the resource is alive (must panic; None is for absent resources only)", bwhat, if some { "a guard" } else { "None" })));
+                                    }
+                                    if some != present {
+                                        return Some(("C08", format!("{} returned {}, the resource is {}", bwhat, if some { "Some" } else { "None" }, if present { "present" } else { "absent" })));
+                                    }
+                                }
                             }
                         }
                         BOp::Drop(k) => {
